@@ -144,6 +144,15 @@ def keep_armed(ctx, rid='R-C04f'):
     which the code itself calls method->set_poll_timeout."""
     prog = ctx.prog
     cs = h.contexts(prog, _method_poll)
+    # a poll slot that hands the wait on to another table's poll slot (mid-run fallback, C15 R-C15b) forwards
+    # its caller's deadline decision; the repeated-deadline logic lives in the callers of the slot
+    pollslots = set()
+    for t, slots in prog.method_tables().items():
+        if slots.get('poll'):
+            pf = prog.resolve(*slots['poll'])
+            if pf is not None:
+                pollslots.add(pf.q)
+    cs = [c for c in cs if c[0].q not in pollslots]
     if not cs:
         raise AnalysisBroken('no function calls method->poll')
     r1, r2, r3, r4, r5 = [], [], [], [], []
